@@ -127,7 +127,7 @@ def main(tier: str, seed: int) -> int:
     for m in per:  # every configuration must have exercised every mode
         modes = m.get("modes") or {}
         for k in ("n_jit", "n_vmap", "n_scan", "n_eager", "n_reset_eager", "n_histories", "n_trace_probes"):
-            if not m.get("error") and modes.get(k, 0) <= 0:
+            if not m.get("error") and not m.get("aborted") and modes.get(k, 0) <= 0:
                 rep.errors.append(f"vacuous: {m.get('model')} has {k} == 0")
     rep.coverage["exhaustive"] = False  # exhaustive over T x modes and over the histories; T is a bounded part of the graph
     rep.coverage["bounds"] = dict(B, key_window=c02_core.KEY_WINDOW, vmap_step=c02_core.VMAP_STEP_BATCHES,
